@@ -4,6 +4,7 @@ import (
 	"fmt"
 	"math"
 	"math/big"
+	"strings"
 	"testing"
 
 	"github.com/db47h/decimal"
@@ -379,6 +380,111 @@ func TestC09Grid(t *testing.T) {
 		n++
 	}
 	h.AddExtra("C09", "precision_rule_grid_cases_enumerated", n)
+	h.AddExtra("C09", "giant_operands_untouched_cases", c09GiantOperands(t))
+}
+
+// c09GiantOperands: operands of 65537..70001 words (1.3 million digits) whose arrays have spare capacity, as a
+// mantissa that was longer before has, through operations at a small receiver precision (where an implementation is
+// tempted to work in the operand's own storage): every word of every operand, its attributes and its array must be
+// what they were; the quotients are checked against math/big as well.
+func c09GiantOperands(t *testing.T) int {
+	st := uint64(0x9E3779B97F4A7C15)
+	next := func() uint64 {
+		st = st*6364136223846793005 + 1442695040888963407
+		return (st >> 3) % h.Base
+	}
+	mkWords := func(n, spare int) []decimal.Word {
+		w := make([]decimal.Word, n, n+spare)
+		for i := range w {
+			w[i] = decimal.Word(next())
+		}
+		if w[0] == 0 {
+			w[0] = 7
+		}
+		w[n-1] = decimal.Word(h.Base/10 + next()%(h.Base-h.Base/10)) // normalised
+		return w
+	}
+	toBig := func(w []decimal.Word) *big.Int {
+		var sb strings.Builder
+		for i := len(w) - 1; i >= 0; i-- {
+			fmt.Fprintf(&sb, "%019d", uint64(w[i]))
+		}
+		v, _ := new(big.Int).SetString(sb.String(), 10)
+		return v
+	}
+	cnt := 0
+	for _, nx := range []int{65537, 70001} {
+		for _, ny := range []int{1, 2, 1000} {
+			xw, yw := mkWords(nx, 1508), mkWords(ny, 3)
+			x := new(decimal.Decimal).SetPrec(uint(19 * nx)).SetMode(decimal.ToZero)
+			x.SetBitsExp(xw, 12)
+			y := new(decimal.Decimal).SetPrec(uint(19 * ny)).SetMode(decimal.AwayFromZero)
+			y.SetBitsExp(yw, -5)
+			xb, yb := h.Read(x), h.Read(y)
+			xcopy := append([]decimal.Word(nil), xw[:cap(xw)]...)
+			xi, yi := toBig(xw), toBig(yw)
+			for _, op := range []string{"quo", "mul", "add", "sub", "fma", "cmp", "set", "sqrt"} {
+				z := new(decimal.Decimal).SetPrec(50).SetMode(decimal.ToNearestEven)
+				switch op {
+				case "quo":
+					z.Quo(x, y)
+					// leading 50 digits of xi/yi, truncated, against the rounded quotient (within one unit of the 50th digit)
+					sc := new(big.Int).Exp(big.NewInt(10), big.NewInt(int64(19*ny+60)), nil)
+					q := new(big.Int).Quo(new(big.Int).Mul(xi, sc), yi)
+					qs := q.String()
+					zw, _ := z.BitsExp()
+					got := toBig(zw).String()
+					if !strings.HasPrefix(got, qs[:49]) && !strings.HasPrefix(qs, got[:49]) {
+						// (a carry through all 49 digits would need a quotient of forty-nine nines: not these operands)
+						h.ReportGridFail(t, "C09", h.Failf("giant-quo", "quotient of a %d-word by a %d-word operand at precision 50: digits %s, math/big %s", nx, ny, got[:50], qs[:50]), mustJSON(struct{ NX, NY int }{nx, ny}))
+					}
+				case "mul":
+					z.Mul(x, y)
+				case "add":
+					z.Add(x, y)
+				case "sub":
+					z.Sub(y, x)
+				case "fma":
+					z.FMA(y, x, y)
+				case "cmp":
+					_ = x.Cmp(y) + y.Cmp(x)
+				case "set":
+					z.Set(x)
+				case "sqrt":
+					if ny != 1 {
+						continue
+					}
+					z.Sqrt(x)
+				}
+				if xa, ya := h.Read(x), h.Read(y); !xa.SameAll(xb) || !ya.SameAll(yb) {
+					h.ReportGridFail(t, "C09", h.Failf("operand-modified", "%s with a %d-word and a %d-word operand at receiver precision 50 changed an operand", op, nx, ny), mustJSON(struct {
+						Op     string
+						NX, NY int
+					}{op, nx, ny}))
+				}
+				for i, w := range xw[:cap(xw)] {
+					if w != xcopy[i] {
+						h.ReportGridFail(t, "C09", h.Failf("operand-array-modified", "%s with a %d-word and a %d-word operand: word %d of x's array (length %d, capacity %d) changed", op, nx, ny, i, nx, cap(xw)), mustJSON(struct {
+							Op     string
+							NX, NY int
+						}{op, nx, ny}))
+					}
+				}
+				if zw, _ := z.BitsExp(); len(zw) > 0 && &zw[:1][0] == &xw[0] {
+					h.ReportGridFail(t, "C09", h.Failf("shared-array", "%s: the receiver's mantissa is x's array", op), mustJSON(struct{ Op string }{op}))
+				}
+				o := &h.Obs{}
+				o.Label("giant-operand:" + op)
+				o.NonTrivial()
+				h.RecordGrid("C09", o, struct {
+					Op     string
+					NX, NY int
+				}{op, nx, ny})
+				cnt++
+			}
+		}
+	}
+	return cnt
 }
 
 // TestC09Ops runs single operations of every size (the C01 generator, which reaches operands of a thousand words)
